@@ -8,6 +8,13 @@ use std::panic::{catch_unwind, AssertUnwindSafe};
 fn val(v: i64) -> Data {
     if v == 0 {
         Data::Empty
+    } else if v == 7 {
+        // a non-default value that "looks empty": the empty text (what =IF(A1>5,"big","") caches)
+        Data::String(String::new())
+    } else if v == 8 {
+        Data::Bool(false)
+    } else if v == 9 {
+        Data::Float(0.0)
     } else {
         Data::Int(v)
     }
@@ -15,6 +22,9 @@ fn val(v: i64) -> Data {
 fn show(d: &Data) -> String {
     match d {
         Data::Empty => "0".to_string(),
+        Data::String(s) if s.is_empty() => "7".to_string(),
+        Data::Bool(false) => "8".to_string(),
+        Data::Float(f) if *f == 0.0 => "9".to_string(),
         Data::Int(i) => i.to_string(),
         other => format!("?{:?}", other),
     }
